@@ -3,9 +3,8 @@ CONSTANTS
   NCo = 2
   MaxSteps = 3
   MaxT = 4
-  MaxOps = 12
-  Deviations = {}
+  MaxOps = 14
+  Deviations = {"cancel_forgotten_on_yield"}
 VIEW view
 INVARIANTS NoViolation ResultOnce ReadyExact
-PROPERTIES OthersUnaffected
 CHECK_DEADLOCK FALSE
